@@ -187,8 +187,20 @@ func readStream(stream []byte, cuts []int) []string {
 	ch := make(chan protocol.Message, 4)
 	done := make(chan struct{})
 	go protocol.Reader(conn, init, nil, ch, done)
-	var out []string
+	// collect first, canonicalise afterwards: a decoded message must stay valid while the
+	// reader goes on (no aliasing of the reader's internal buffer)
+	var msgs []protocol.Message
 	for m := range ch {
+		msgs = append(msgs, m)
+		if _, ok := m.(protocol.Error); ok || m == nil {
+			break
+		}
+		if len(msgs) > 64 {
+			break
+		}
+	}
+	var out []string
+	for _, m := range msgs {
 		if e, ok := m.(protocol.Error); ok {
 			out = append(out, errTok(e.Error))
 			break
